@@ -43,6 +43,12 @@ RUNS = [
          quick=dict(explore=400000), thorough=dict(explore=400000)),
     dict(name="sem-k2-fair-p1", prim="semaphore", cfg="2 1 1 3 2 3 1", flavours=["local"],
          quick=dict(explore=400000), thorough=dict(explore=400000)),
+    # the usize::MAX boundary of the permit counter: initial permits usize::MAX-3, the budget lets
+    # releases land exactly on usize::MAX (never above: overflow is excluded by the contract)
+    dict(name="sem-max-unfair", prim="semaphore", cfg="2 0 18446744073709551612 3 2 18446744073709551615 1", flavours=["local", "sync", "shared"],
+         quick=dict(explore=40000), thorough=dict(explore=400000), corpus=False),
+    dict(name="sem-max-fair", prim="semaphore", cfg="2 1 18446744073709551612 3 2 18446744073709551615 1", flavours=["local", "sync", "shared"],
+         quick=dict(explore=40000), thorough=dict(explore=400000), corpus=False),
     dict(name="sem-k3-unfair", prim="semaphore", cfg="3 0 0 2 1 2 1", flavours=["local", "shared"],
          quick=dict(explore=0), thorough=dict(explore=3000000), corpus=False),
     dict(name="sem-k3-fair", prim="semaphore", cfg="3 1 0 2 1 2 1", flavours=["local", "shared"],
@@ -60,7 +66,7 @@ RUNS += [
     dict(name="mpmc-c1-22", prim="mpmc", cfg="2 2 1 0 0", flavours=["local"],
          quick=dict(explore=0), thorough=dict(explore=4000000), corpus=False),
     dict(name="mpmc-c2-22", prim="mpmc", cfg="2 2 2 0 0", flavours=["local"],
-         quick=dict(explore=0), thorough=dict(explore=6000000), corpus=False),
+         quick=dict(explore=30000, random=(400, 40)), thorough=dict(explore=6000000), corpus=False),
     dict(name="mpmc-shared-c0", prim="mpmc", cfg="1 1 0 1 2", flavours=["shared", "shared-growing"],
          quick=dict(explore=1000000, random=(300, 80)), thorough=dict(explore=1000000, random=(5000, 300)), random_cfg="4 4 0 1 3"),
     dict(name="mpmc-shared-c1", prim="mpmc", cfg="1 1 1 1 2", flavours=["shared", "shared-growing"],
@@ -131,7 +137,7 @@ RUNS += [
 MPMC_RUNS = ["mpmc-c0", "mpmc-c1", "mpmc-c2", "mpmc-c1-22", "mpmc-c2-22", "mpmc-shared-c0", "mpmc-shared-c1", "mpmc-shared-c1-h3"]
 ONESHOT_RUNS = ["oneshot-local", "bcast-local", "oneshot-shared", "bcast-shared"]
 MUTEX_RUNS = ["mutex-k3-unfair", "mutex-k3-fair", "mutex-k4-unfair", "mutex-k4-fair"]
-SEM_RUNS = ["sem-k2-unfair", "sem-k2-fair", "sem-k2-unfair-p1", "sem-k2-fair-p1", "sem-k3-unfair", "sem-k3-fair"]
+SEM_RUNS = ["sem-k2-unfair", "sem-k2-fair", "sem-k2-unfair-p1", "sem-k2-fair-p1", "sem-k3-unfair", "sem-k3-fair", "sem-max-unfair", "sem-max-fair"]
 
 # ---------------------------------------------------------------------------------------------
 ALL_RUNS_FOR_PROTOCOL = None
@@ -163,6 +169,8 @@ PROPS = {
         level="other", coq_files=["Properties/C18.v"],
         theorems={"Properties/C18.v": ["C18_alloc_zero", "C18_store_domain_preserved"]},
         prims=["event", "mutex", "semaphore", "mpmc", "oneshot", "state", "timer"], keys=["a"],
+        # + the array / fixed-heap ring buffers themselves, all capacities 0..4 (push / pop must not allocate)
+        runs=[n for n in RB_RUNS if not n.startswith("rb-2-") and n.endswith("-0")],
         exclude_flavours=["growing", "shared-growing"], direct_keys=["a"],
         explanation="Thin theorem (every model step reports zero allocations; the pointer-level containers never change the domain of the cell store) + the deciding observable: a counting #[global_allocator] in the harness, armed only inside library calls (id-wakers, tagged payloads and the harness bookkeeping allocate nothing while armed), whose per-step allocation+free count is compared with the model's zero on every step of every history explored for the other properties, for local, parking_lot and shared flavours. GrowingHeapBuf runs are excluded from the 'a' comparison (documented exception); creation/teardown of primitives and panicking calls are outside the claim.",
         level_text="Allocation observable in the model/implementation correspondence, backed by a thin Coq theorem; see explanation.",
@@ -194,7 +202,7 @@ PROPS = {
         level="proof", extra=["atomic_audit", "threads"], coq_files=["Properties/C05.v"],
         theorems={"Properties/C05.v": ["C05_ledger", "C05_grant_exact", "C05_releaser_once", "C05_disarm"]},
         runs=SEM_RUNS, keys=["r", "p"], assumptions=[SCHED_NOTE, "permits + release amounts stay below usize::MAX (source has a TODO: overflow check)"],
-        monitor=dict(id=5, runs=["sem-k2-unfair", "sem-k2-fair"]),
+        monitor=dict(id=5, runs=["sem-k2-unfair", "sem-k2-fair", "sem-max-unfair", "sem-max-fair"]),
         level_text="Theorem over all histories (fair/unfair, any requests, with or without the wake-up repairs): the ledger monitor over the observable trace holds - permits() = initial + released - taken + returned after every call, grants only when enough permits and of exactly n, releaser returns its amount once, zero after disarm. Correspondence: results (incl. observed permit deltas) and permits() on every transition, borrowed, parking_lot and shared flavours.",
         level_note="Overflow of the permit counter is excluded by the contract predicate. " + SCHED_NOTE,
     ),
@@ -202,7 +210,7 @@ PROPS = {
         level="proof", extra=["atomic_audit", "threads"], coq_files=["Properties/C06.v"],
         theorems={"Properties/C06.v": ["C06_head_not_stranded", "C06_progress", "C06_refuted_pinned"]},
         runs=SEM_RUNS, keys=["r", "w", "p"], assumptions=[SCHED_NOTE, "wakers private to each future (so that wake events are attributable from the trace)"],
-        monitor=dict(id=6, runs=["sem-k2-unfair", "sem-k2-fair"]),
+        monitor=dict(id=6, runs=["sem-k2-unfair", "sem-k2-fair", "sem-max-unfair", "sem-max-fair"]),
         level_text="Theorem over all histories of the repaired code, both fairness modes: at every quiescent point, if requests are pending and none holds an unconsumed wake-up then the longest-waiting one (ordering rule of the property, recomputed from the trace) does not fit into permits(); notified request that fits completes when polled; plus a machine-checked refutation for the pre-repair model (finding D1a). Correspondence on results, ordered wakes and permits(); the extracted monitor is also evaluated on the crate's own traces to exhibit a failing history.",
         level_note="'Eventually completes' is the invariant + one-step progress, not a temporal theorem. " + SCHED_NOTE,
     ),
@@ -233,7 +241,7 @@ PROPS = {
     "C10": dict(
         level="proof", extra=["atomic_audit", "threads"], coq_files=["Properties/C10.v"],
         theorems={"Properties/C10.v": ["C10_recv_woken_trace", "C10_recv_woken", "C10_sender_woken", "C10_after_close_all_woken", "C10_progress", "C10_sender_progress"]},
-        runs=MPMC_RUNS, keys=["r", "w", "p"], monitor=dict(id=10, runs=["mpmc-c0", "mpmc-c1", "mpmc-shared-c0"]),
+        runs=MPMC_RUNS, keys=["r", "w", "p"], monitor=dict(id=10, runs=["mpmc-c0", "mpmc-c1", "mpmc-shared-c0", "mpmc-c2-22"]),
         assumptions=[SCHED_NOTE],
         level_text="Theorem over all histories: after every call, value available and receivers pending => some pending receiver woken since its last poll through that poll's waker (monitor on the trace + state-level version); accepted sender woken; all pending futures woken after close; progress lemmas (unqueued receiver polled while a value is available gets the oldest value; completed sender polls Ok). Correspondence on results and ordered wake lists.",
         level_note="'Never deadlock' is the safety invariant + one-step progress, not a temporal theorem. " + SCHED_NOTE,
@@ -286,7 +294,7 @@ PROPS = {
     "C16": dict(
         level="proof", coq_files=["Properties/C16.v"],
         pre_coq="python3 tools/rs2coq_types.py /repo/src coq/Gen/TypesGen.v && make -C coq Gen/TypesGen.vo >/dev/null 2>&1; true",
-        theorems={"Properties/C16.v": ["C16_futures_not_unpin", "C16_sound", "C16_table_covers_impls", "C16_complete", "C16_producers_guarded"]},
+        theorems={"Properties/C16.v": ["C16_futures_not_unpin", "C16_sound", "C16_table_covers_impls", "C16_complete", "C16_producers_guarded", "C16_erased_guarded", "C16_erased_links_sound"]},
         runs=[], keys=[], extra=["c16"],
         trusted_extra=["tools/rs2coq_types.py (translator: struct/enum fields, unsafe impl bounds -> coq/Gen/TypesGen.v, regenerated on every run)",
                        "coq/Model/AutoTraits.v leaf rules for core/alloc/lock_api types, validated on every run against rustc on ~1500 instantiations with witness types (tools/c16.py probe crate)",
